@@ -240,7 +240,7 @@ func (c *converter) ProgramEnd() error {
 	if c.echoHelperRequired {
 		v := c.varEvaluationString(funcArgVar(0), true)
 		c.addHelper("echo", echoHelper,
-			fmt.Sprintf(`if "%s" neq "" (echo %s) else echo.`, v, v), // echo. could be problematic (see discussion: https://stackoverflow.com/a/20691061).
+			fmt.Sprintf(`if "%s" neq "" (echo(%s) else echo.`, v, v), // "echo(" also prints blank-only text and the words on/off instead of reporting/switching the echo state. // echo. could be problematic (see discussion: https://stackoverflow.com/a/20691061).
 		)
 	}
 	c.addEndLine(":end")
